@@ -121,6 +121,7 @@ func runC20(c *Ctx) {
 
 	// --- H4 file hashing delegates ------------------------------------------
 	c.c20FileHash()
+	c.c20NoHasherInPackageState()
 }
 
 // c20Method checks H1 and H2 in one method of hashingAlgo; returns the number
@@ -606,5 +607,107 @@ func (c *Ctx) c20FileHash() {
 		if n == 0 {
 			c.violate("H4", fname(g)+"/closure", c.pos(g.Pos()), "no delegating closure found")
 		}
+	}
+}
+
+// c20NoHasherInPackageState (H7): "a digest depends only on the algorithm and the bytes". A hasher is a piece of mutable state
+// (write, sum, reset): the package-level helpers build one per call. A hasher fetched from package-level state — a global, a
+// map or a sync.Map of hashers kept "per algorithm" — is shared by every caller of the helper: two goroutines hashing with the
+// same algorithm interleave their writes and resets, and both get a digest of neither text. Decided for package hashing: the
+// receiver of every hashing call (Calculate*, Write, Sum, Reset on a hasher) made by a function of the package derives from
+// a parameter, a field of the function's own receiver, or a constructor called in that function — never from a load of a
+// package-level variable or from a sync.Map.
+func (c *Ctx) c20NoHasherInPackageState() {
+	c.rule("H7", "in package hashing the hasher a function works with comes from a parameter, its own receiver, or a constructor it calls — never out of package-level state (a global, a map or sync.Map of hashers): independent callers never share a hasher", 3)
+	n := 0
+	for _, f := range c.srcFuncs("hashing") {
+		if f.Blocks == nil {
+			continue
+		}
+		allInstrs(f, func(in ssa.Instruction) {
+			cl, ok := in.(*ssa.Call)
+			if !ok {
+				return
+			}
+			var recv ssa.Value
+			if cl.Call.IsInvoke() {
+				t := cl.Call.Value.Type().String()
+				if !(strings.HasSuffix(t, "hashing.IHash") || t == "hash.Hash" || t == "hash.Hash32" || t == "hash.Hash64") {
+					return
+				}
+				recv = cl.Call.Value
+			} else if g := staticCallee(&cl.Call); g != nil && g.Signature.Recv() != nil && strings.Contains(g.Signature.Recv().Type().String(), "hashing.hashingAlgo") && len(cl.Call.Args) > 0 {
+				recv = cl.Call.Args[0]
+			} else if g != nil && inPkg("hashing")(g) && g.Signature.Recv() == nil {
+				// a helper of the package that is handed a hasher
+				for _, a := range cl.Call.Args {
+					if strings.HasSuffix(a.Type().String(), "hashing.IHash") {
+						recv = a
+					}
+				}
+			}
+			if recv == nil {
+				return
+			}
+			n++
+			shared := ""
+			var walk func(v ssa.Value, depth int, seen map[ssa.Value]bool)
+			walk = func(v ssa.Value, depth int, seen map[ssa.Value]bool) {
+				if v == nil || seen[v] || depth > 30 {
+					return
+				}
+				seen[v] = true
+				switch x := v.(type) {
+				case *ssa.Global:
+					shared = "the package-level variable " + x.Name()
+				case *ssa.UnOp:
+					walk(x.X, depth+1, seen)
+				case *ssa.FieldAddr:
+					walk(x.X, depth+1, seen)
+				case *ssa.IndexAddr:
+					walk(x.X, depth+1, seen)
+				case *ssa.Lookup:
+					walk(x.X, depth+1, seen)
+				case *ssa.Extract:
+					walk(x.Tuple, depth+1, seen)
+				case *ssa.TypeAssert:
+					walk(x.X, depth+1, seen)
+				case *ssa.MakeInterface:
+					walk(x.X, depth+1, seen)
+				case *ssa.ChangeInterface:
+					walk(x.X, depth+1, seen)
+				case *ssa.Phi:
+					for _, e := range x.Edges {
+						walk(e, depth+1, seen)
+					}
+				case *ssa.Alloc:
+					for _, st := range storesToDeep(x) {
+						walk(st, depth+1, seen)
+					}
+				case *ssa.Call:
+					cn := calleeFull(&x.Call)
+					if strings.HasPrefix(cn, "(*sync.Map).") {
+						shared = "a sync.Map (" + c.ipos(x) + ")"
+						return
+					}
+					// a helper of the package that hands out a hasher: follow what it returns
+					if g := staticCallee(&x.Call); g != nil && inPkg("hashing")(g) && g.Blocks != nil && depth < 6 {
+						allInstrs(g, func(i2 ssa.Instruction) {
+							if r, ok := i2.(*ssa.Return); ok && len(r.Results) > 0 {
+								walk(r.Results[0], depth+1, seen)
+							}
+						})
+					}
+				}
+			}
+			walk(recv, 0, map[ssa.Value]bool{})
+			key := fname(f) + "/own-hasher:" + c.ipos(cl)
+			_ = key
+			c.check(shared == "", "H7", fname(f)+"/own-hasher", c.ipos(cl), "the hasher comes from a parameter, the receiver or a constructor called here",
+				"the hasher used here comes out of "+shared+": every caller of this function with the same algorithm works on one hash.Hash — two goroutines interleave their writes and resets and each gets a digest that is the digest of neither text (or a panic inside the hash implementation), although each of them only ever called a package-level function")
+		})
+	}
+	if n == 0 {
+		c.violate("H7", "hashing/no-hashing-call", "-", "no function of package hashing works with a hasher any more")
 	}
 }
